@@ -38,7 +38,7 @@ fn info(tier: Tier) -> CheckInfo {
         id: "C14",
         level: "model_checking",
         rule: format!(
-            "Tier {}: an observer (server mode) and 4 real peers on a private and on a public IP plan for {} virtual minutes ({} five-minute ping rounds, {} refreshes). The steady timeline is the 0-deviation run; every single deviation{} from {{crash peer p, restart p at the same address under a new id, peer p joins late, a lookup is issued on the observer}} x p in 0..3 x placement in {{each 5-minute boundary -1 s / +1 s, mid-interval}} is run to the horizon, plus: the observer started a minute before its bootstrap peer; every ordered pair (p,q) crashed at minute 5 and minute 27. At every 5-minute boundary (+3 s), from the datagram log: (a) a live peer whose response the observer accepted within the last 15 minutes is in its table; (b) a peer silent for 21 minutes is gone; (c) a restarted peer's new id is present 16 minutes after the restart; (d) the table is not empty while a known peer is alive and a find_node(own id) was sent in every 16-minute window.",
+            "Tier {}: an observer (server mode) and 4 real peers on a private and on a public IP plan for {} virtual minutes ({} five-minute ping rounds, {} refreshes). The steady timeline is the 0-deviation run; every single deviation{} from {{crash peer p, restart p at the same address under a new id, peer p joins late, a lookup is issued on the observer}} x p in 0..3 x placement in {{each 5-minute boundary -1 s / +1 s, mid-interval}} is run to the horizon, plus: the observer started a minute before its bootstrap peer; every ordered pair (p,q) crashed at minute 5 and minute 27; a blackout (all four peers crash at minute 5, the table is purged empty, the bootstrap peer - alone or followed by a second peer - comes back at minute 26 / 31 / 38; also with a late joiner at minute 7, the blackout at minute 23 / 28 and the bootstrap peer back 14 / 19 minutes later). At every 5-minute boundary (+3 s), from the datagram log: (a) a live peer whose response the observer accepted within the last 15 minutes is in its table; (b) a peer silent for 21 minutes is gone; (c) a restarted peer's new id is present 16 minutes after the restart; (d) the table is not empty while a known peer is alive and a find_node(own id) was sent in every 16-minute window.",
             tier.name(),
             horizon_min(tier),
             horizon_min(tier) / 5,
@@ -396,6 +396,27 @@ fn run(tier: Tier, shard: usize, nshards: usize, _seed: u64) -> Partial {
             cfgs.push(Cfg { public, late: Some((p, m)), devs: vec![], horizon, observer_first: false });
         }
         cfgs.push(Cfg { public, late: None, devs: vec![], horizon, observer_first: true });
+        // blackout: every peer dies at minute 5, the observer's table is purged empty, and
+        // later its bootstrap peer (alone, or with a second peer) comes back at the same address
+        for back_at in [26u64, 31, 38] {
+            for second in [false, true] {
+                let mut devs: Vec<Dev> = (0..4).map(|p| Dev { at: 5 * MIN + (1 + p as u64) * SEC, act: Act::Crash(p) }).collect();
+                devs.push(Dev { at: back_at * MIN + 7 * SEC, act: Act::Restart(0) });
+                if second {
+                    devs.push(Dev { at: back_at * MIN + 40 * SEC, act: Act::Restart(2) });
+                }
+                cfgs.push(Cfg { public, late: None, devs, horizon: horizon.max(65 * MIN), observer_first: false });
+            }
+        }
+        // the same with a late joiner (minute 7) whose own refresh reaches the observer after
+        // the observer last heard an answer from it: the two tables age differently
+        for crash_at in [23u64, 28] {
+            for back_after in [14u64, 19] {
+                let mut devs: Vec<Dev> = (0..4).map(|p| Dev { at: crash_at * MIN + (1 + p as u64) * SEC, act: Act::Crash(p) }).collect();
+                devs.push(Dev { at: (crash_at + back_after) * MIN + 7 * SEC, act: Act::Restart(0) });
+                cfgs.push(Cfg { public, late: Some((3, 7)), devs, horizon: horizon.max(75 * MIN), observer_first: false });
+            }
+        }
         // a near peer dies, and more than 20 minutes later a second one
         for p in 0..4 {
             for q in 0..4 {
